@@ -912,6 +912,11 @@ def run_net_stage(rep, tier, rng):
     run_correspondence(rep, ndrv, cases, impl_cached, net_req, net_compare, orc, "circuit.net", batch=40, req_uses_output=True, nontrivial=nontriv)
     run_correspondence(rep, ndrv, cases, impl_cached, simtn_req, simtn_compare, lambda c, o: [], "sim.tn", batch=40, req_uses_output=True,
                        nontrivial=lambda c, o: isinstance(o, dict) and "_psi" in o)
+    rep.cov.pop("not_covered_yet", None)
+    rep.cov["tensor_network_stage"] = ("Circuit.as_tensornet() and TensorNetworkSimulator.run are modelled (circuitNet / tnRun, driver drv_circuitnet) and "
+                                       "compared on every circuit of this stage: tensors, bonds (canonical bond relabelling), dictionary orders, data arrays "
+                                       "(exact), is_consistent, open axes, and - up to the tier's term limit of the exact dense evaluation - the contracted "
+                                       "values within 1e-9; Lean: Properties/C05Net.lean (network = matrix, simulator = column 0, consistency, open axes)")
 
 
 def run(rep, tier, rng, drv):
